@@ -123,7 +123,7 @@ func descValue(v ssa.Value, depth int) string {
 		}
 		return x.Value.ExactString()
 	case *ssa.Parameter:
-		return "param:" + typeShort(x.Type())
+		return "param:" + typeDesc(x.Type())
 	case *ssa.UnOp:
 		if x.Op == token.MUL {
 			if fa, ok := x.X.(*ssa.FieldAddr); ok {
@@ -135,7 +135,7 @@ func descValue(v ssa.Value, depth int) string {
 			if ia, ok := x.X.(*ssa.IndexAddr); ok {
 				return descValue(ia.X, depth+1) + "[]"
 			}
-			return "var:" + typeShort(x.Type())
+			return "var:" + typeDesc(x.Type())
 		}
 		if x.Op == token.NOT {
 			return "!" + descValue(x.X, depth+1)
@@ -163,9 +163,9 @@ func descValue(v ssa.Value, depth int) string {
 	case *ssa.BinOp:
 		return "(" + descValue(x.X, depth+1) + " " + x.Op.String() + " " + descValue(x.Y, depth+1) + ")"
 	case *ssa.Phi:
-		return "var:" + typeShort(x.Type())
+		return "var:" + typeDesc(x.Type())
 	case *ssa.FreeVar:
-		return "captured:" + typeShort(x.Type())
+		return "captured:" + typeDesc(x.Type())
 	case *ssa.Index:
 		return descValue(x.X, depth+1) + "[]"
 	case *ssa.Slice:
@@ -184,7 +184,7 @@ func descValue(v ssa.Value, depth int) string {
 	case *ssa.Convert:
 		return descValue(x.X, depth+1)
 	}
-	return "val:" + typeShort(v.Type())
+	return "val:" + typeDesc(v.Type())
 }
 
 func descCall(c *ssa.Call, depth int) string {
@@ -337,4 +337,35 @@ func fieldPathDesc(fa *ssa.FieldAddr, d int) string {
 		}
 	}
 	return name
+}
+
+
+// typeDesc: typeShort, but a map whose key is a struct type of the module is
+// written with the key's field names, map[cisco.routeDst{vrf,prefix}]...: what
+// counts as "the same key" is part of the decision a lookup in that map makes.
+func typeDesc(t types.Type) string {
+	m, ok := t.Underlying().(*types.Map)
+	if !ok {
+		return typeShort(t)
+	}
+	kn, kst := structOf(m.Key())
+	if kn == nil || kn.Obj().Pkg() == nil || !strings.HasPrefix(kn.Obj().Pkg().Path(), modPath) {
+		return typeShort(t)
+	}
+	var fl func(st *types.Struct) []string
+	fl = func(st *types.Struct) []string {
+		var out []string
+		for i := 0; i < st.NumFields(); i++ {
+			f := st.Field(i)
+			if f.Embedded() {
+				if _, es := structOf(f.Type()); es != nil {
+					out = append(out, fl(es)...)
+					continue
+				}
+			}
+			out = append(out, f.Name())
+		}
+		return out
+	}
+	return "map[" + typeShort(m.Key()) + "{" + strings.Join(fl(kst), ",") + "}]" + typeShort(m.Elem())
 }
